@@ -107,6 +107,12 @@ func (g *GRU) Apply(inputs []tensor.Tensor) ([]tensor.Tensor, error) {
 
 	// Extract the shape of the hidden dimensions without the bidirectional dimension, as
 	// we do not support bidirectional GRU yet.
+	// Work on a copy: the initial state is a caller tensor or a model weight and must keep its shape.
+	prevH, ok := prevH.Clone().(tensor.Tensor)
+	if !ok {
+		return nil, ops.ErrTypeAssert("tensor.Tensor", prevH)
+	}
+
 	shapeWithoutBidir := prevH.Shape().Clone()[1:]
 
 	err = prevH.Reshape(shapeWithoutBidir...)
